@@ -197,7 +197,10 @@ def routing(ctx, tk):
     for n in fa.cfg.stmts():
         if n.kind == "stmt" and isinstance(n.ast, ast.Assign):
             tm = fa.term(n.ast.value, n)
-            if any(x.k == "comp" and x.a[3] and any(y.k == "global" and y.a[0] == "Ellipsis" for c in x.a[3] for y in walk(c)) for x in walk(tm)):
+            # the statement that itself filters the Ellipsis entries out (not a later statement that merely uses the result)
+            own = any(isinstance(x, (ast.GeneratorExp, ast.ListComp)) and any(isinstance(y, ast.Name) and y.id == "Ellipsis" for g_ in x.generators for c_ in g_.ifs for y in ast.walk(c_))
+                      for x in ast.walk(n.ast.value))
+            if own and any(x.k == "comp" and x.a[3] and any(y.k == "global" and y.a[0] == "Ellipsis" for c in x.a[3] for y in walk(c)) for x in walk(tm)):
                 strip.append(n)
     if strip:
         m_, cons_, (E_, G_, L_) = order_atoms("len", lambda t: t.k == "call" and call_name(t) == "len" and t.a[1] and t.a[1][0].k == "param" and t.a[1][0].a[0] == ip,
